@@ -261,7 +261,27 @@ def flatten_and(test, polarity=True):
                 res.extend(flatten_and(val, False))
             return res
         return [(test, polarity)]
-    return [(test, polarity)]
+    # a false equality / membership / identity test is read as the true
+    # opposite test, so that a fact reads the same whether the author wrote
+    # `if a == b: ...` or `if a != b: continue`
+    return [positive_fact(test, polarity)]
+
+
+def positive_fact(test, polarity):
+    """(expr, polarity) with a false ==, !=, in, not in, is, is not test turned
+    into the true opposite test."""
+    if not polarity and isinstance(test, ast.Compare) and len(test.ops) == 1 \
+            and type(test.ops[0]) in _OPPOSITE:
+        pos = ast.Compare(left=test.left, ops=[_OPPOSITE[type(test.ops[0])]()],
+                          comparators=test.comparators)
+        ast.copy_location(pos, test)
+        pos._parent = getattr(test, '_parent', None)
+        return pos, True
+    return test, polarity
+
+
+_OPPOSITE = {ast.Eq: ast.NotEq, ast.NotEq: ast.Eq, ast.In: ast.NotIn, ast.NotIn: ast.In,
+             ast.Is: ast.IsNot, ast.IsNot: ast.Is}
 
 
 def facts_at(node, stop=None):
